@@ -1941,6 +1941,13 @@ func (e *Engine) WriteSnapshot() (err error) {
 			return
 		}
 
+		// A retried snapshot holds only the writes made before its first
+		// attempt. The WAL segments closed since then are not covered by it
+		// and must stay until a later snapshot persists their contents.
+		if e.Cache.retryingSnapshot() {
+			segments = nil
+		}
+
 		return
 	}()
 
